@@ -236,6 +236,7 @@ func c16(c *Ctx) {
 	c09EntryCountBounded(c, "C16.9/entry-count-bounded")
 	c16PeerMessages(c, "C16.12/peer-messages-nil-checked")
 	c16ReadLoopsEnd(c, "C16.13/read-loops-end-with-the-input")
+	c16DecodedCountBoundsAllocation(c, "C16.16/decoded-size-is-bounded-before-it-allocates")
 	c16InnerNodeNotEmpty(c, "C16.15/decoded-inner-node-is-not-empty")
 	c16NoNilNil(c, "C16.14/no-nil-result-without-error", []string{"embedded/appendable/singleapp", "embedded/appendable/multiapp", "embedded/appendable/remoteapp", "embedded/appendable/fileutils", "embedded/appendable", "embedded/store", "embedded/tbtree", "embedded/ahtree", "embedded/htree", "embedded/cache", "embedded/multierr", "embedded/watchers"})
 }
@@ -1105,5 +1106,109 @@ func c16InnerNodeNotEmpty(c *Ctx, r string) {
 	}
 	if n == 0 {
 		c.undecided(r, "floor", "the decoder of inner nodes was not found")
+	}
+}
+
+// c16DecodedCountBoundsAllocation: memory. A 4- or 8-byte count or length decoded from the input sizes an allocation
+// (make of a slice or a map): 2^32 announced elements are a multi-gigabyte allocation made before a single element was
+// looked at. Rule: such a size is compared with something on an edge that dominates the allocation (the limit itself is
+// the author's: remaining input, a configured maximum, ...).
+var c16AllocAllowed = map[string]string{}
+
+func c16DecodedCountBoundsAllocation(c *Ctx, r string) {
+	wide := func(v ssa.Value) ssa.Value {
+		var src ssa.Value
+		dependsOn(v, func(x ssa.Value) bool {
+			cl, ok := x.(*ssa.Call)
+			if !ok {
+				if ex, okE := x.(*ssa.Extract); okE {
+					if cl2, ok2 := ex.Tuple.(*ssa.Call); ok2 {
+						n := calleeName(&cl2.Call)
+						if ex.Index == 0 && (strings.HasSuffix(n, "appendable.(*Reader).ReadUint32") || strings.HasSuffix(n, "appendable.(*Reader).ReadUint64")) {
+							src = x
+							return true
+						}
+					}
+				}
+				return false
+			}
+			n := calleeName(&cl.Call)
+			if strings.HasSuffix(n, "Endian).Uint32") || strings.HasSuffix(n, "Endian).Uint64") {
+				src = x
+				return true
+			}
+			return false
+		})
+		return src
+	}
+	n := 0
+	for _, f := range c.allFns {
+		if tp := topFn(f).Pkg; tp == nil || !strings.HasPrefix(tp.Pkg.Path(), modPrefix) || len(f.Blocks) == 0 {
+			continue
+		}
+		if fn := c.Fset.Position(f.Pos()).Filename; strings.HasSuffix(fn, ".pb.go") || strings.HasSuffix(fn, ".pb.gw.go") || strings.HasSuffix(fn, "_test.go") {
+			continue
+		}
+		k := 0
+		allInstrs(f, false, func(in ssa.Instruction) {
+			var size ssa.Value
+			switch x := in.(type) {
+			case *ssa.MakeSlice:
+				size = x.Len
+				if wide(x.Cap) != nil && wide(x.Len) == nil {
+					size = x.Cap
+				}
+			case *ssa.MakeMap:
+				size = x.Reserve
+			}
+			if size == nil {
+				return
+			}
+			src := wide(size)
+			if src == nil {
+				return
+			}
+			k++
+			n++
+			construct := fmt.Sprintf("%s:allocation#%d", fnName(f), k)
+			if _, okA := c16AllocAllowed[construct]; okA {
+				return
+			}
+			// a comparison mentioning the decoded value (or the size computed from it) on an edge dominating the allocation
+			guarded := false
+			ds, dz := strings.TrimPrefix(desc(src), "convert:"), strings.TrimPrefix(desc(size), "convert:")
+			for _, b := range f.Blocks {
+				if len(b.Instrs) == 0 {
+					continue
+				}
+				ifi, ok := b.Instrs[len(b.Instrs)-1].(*ssa.If)
+				if !ok {
+					continue
+				}
+				if !(edgeDominates(b, 0, in.Block()) || edgeDominates(b, 1, in.Block())) {
+					continue
+				}
+				for _, leaf := range boolLeaves(ifi.Cond) {
+					bo, ok := leaf.(*ssa.BinOp)
+					if !ok {
+						continue
+					}
+					switch bo.Op {
+					case token.LSS, token.GTR, token.LEQ, token.GEQ:
+					default:
+						continue
+					}
+					d := desc(leaf)
+					if strings.Contains(d, ds) || strings.Contains(d, dz) || dependsOn(bo.X, func(v ssa.Value) bool { return v == src }) || dependsOn(bo.Y, func(v ssa.Value) bool { return v == src }) {
+						guarded = true
+					}
+				}
+			}
+			c.check(guarded, r, construct, c.pos(in.Pos()), "the decoded size is compared with a limit before it sizes the allocation",
+				"an allocation is sized by "+desc(size)+", a 32/64-bit number taken from the input, and nothing compares it with a limit first: a few bytes of input ask for gigabytes")
+		})
+	}
+	if n < 3 {
+		c.undecided(r, "floor", fmt.Sprintf("%d allocations sized by a decoded 32/64-bit number found", n))
 	}
 }
